@@ -207,7 +207,11 @@ pub fn run(tier: Tier) -> i32 {
     rep.rule("M2: every schedule with <= d deviations (per packet: drop/dup/delay1/delay2/dup-late; per batch: reverse; per tick: drain at end / skip / after every single arrival) over 5 ticks per scenario (script x tick length x direction) + fault-free tail; oracle: each obtained message byte-identical to a not-yet-obtained submitted one, complete messages are yielded by the next drain whatever older ids are missing, all obtained after the tail");
     rep.assume("sizes from {0,1,1200,1201,2401}; budgets ample (100 kB) so no budget disconnect is legitimate");
     let sc = scenarios(tier);
-    run_link_scenarios(&mut rep, "m2", &sc, tier.pick(2, 3), tier.pick(120.0, 1500.0));
+    run_link_scenarios(&mut rep, "m2", &sc, tier.pick(3, 4), tier.pick(120.0, 3000.0));
+    if rep.machinery.is_none() {
+        rep.rule("M1 (API soup): every interleaving up to depth D of send / update / flush / deliver / drop / duplicate / receive with <= 3 packets in flight per direction on an unordered channel; at-most-once + provenance after every call, completeness probe on a clone in every state");
+        super::soup::run_soup(&mut rep, tier, "soup", Kind::Unordered, super::soup::O_UNORDERED, &["C02/"]);
+    }
     rep.finish()
 }
 
@@ -216,5 +220,8 @@ pub fn replay(j: &J) -> i32 {
         Some("thorough") => Tier::Thorough,
         _ => Tier::Quick,
     };
+    if j.get("kind").and_then(|k| k.as_str()) == Some("trace") {
+        return super::soup::replay_soup(j, Kind::Unordered, super::soup::O_UNORDERED);
+    }
     replay_link(&scenarios(tier), j)
 }
